@@ -2,10 +2,11 @@
 (* C02 - assignment laws.  Paths (existing, to be auto-created, negative indices, splats, multi-match selections) x
    replacement values / update expressions x documents.  The laws put-get, get-put, put-put and frame are checked by
    TLC on the reference evaluator; every expression is replayed on yqlib (results and document afterwards). *)
-EXTENDS Eval, Json
-CONSTANTS NShards, Shard
+EXTENDS Eval, Json, Docs
+CONSTANTS NShards, Shard,
+          Big      \* TRUE: the systematic document space of Docs.tla is added (thorough tier)
 A == <<"a">>  B == <<"b">>  C == <<"c">>
-DocSeq == <<
+BaseDocs == <<
   MapV(<<>>), Null,
   MapV(<< <<A, IntV(1)>>, <<B, MapV(<< <<A, IntV(2)>>, <<B, SeqV(<<IntV(0), IntV(2), StrV(A)>>)>> >>)>> >>),
   MapV(<< <<A, SeqV(<<IntV(1), IntV(2), IntV(3)>>)>>, <<B, StrV(A)>> >>),
@@ -14,6 +15,7 @@ DocSeq == <<
   SeqV(<<IntV(1), SeqV(<<IntV(2), IntV(0)>>), MapV(<< <<A, IntV(2)>> >>)>>),
   MapV(<< <<A, MapV(<<>>)>>, <<B, SeqV(<<Null>>)>> >>)
 >>
+DocSeq == IF Big THEN BaseDocs \o MoreDocs ELSE BaseDocs
 Idx(l, i) == ETravArr(l, ECollect(ELit(IntV(i))))
 \* addressable paths
 Paths1 == << EPath(A), EPath(B), EPath(C), EPipe(EPath(A), EPath(B)), EPipe(EPath(B), EPath(A)), EPipe(EPath(A), EPipe(EPath(B), EPath(C))),
